@@ -67,6 +67,10 @@ Mix == { Reg("%rax"), Reg("%r8d"), Mem("", "%rax", "", ""), Mem("0x8", "%rax", "
          Mem("", "%rax", "%rbx", "1"), Mem("0x0", "", "%rcx", "8"), Imm("0x10"), Target("401020") }
 OpLists == { <<f>> : f \in Forms } \cup SeqsBetween(Mix, 0, MaxOps)
 OpListings == { <<InsnLine("401000", <<"90">>, "op", o)>> : o \in OpLists }
+        \* two long instructions whose raw-byte columns agree (objdump prints only the first 7 bytes on the line)
+        \cup { <<InsnLine("401000", B7, "op", o1), ContLine("401007", <<"00", "01">>), InsnLine("401009", B7, "op", o2), ContLine("401010", <<"00", "02">>)>>
+               : o1 \in { <<f, Mem("0x108", "%rsp", "", "")>> : f \in {Imm("0x1"), Imm("0x2")} },
+                 o2 \in { <<f, Mem("0x108", "%rsp", "", "")>> : f \in {Imm("0x1"), Imm("0x2")} } \cup { <<Reg("%rax"), Mem("0x110", "%rsp", "", "")>> } }
 
 \* a block of ordinary instruction lines, repeated K times by the harness for listings of 10^4 .. 10^6 lines
 ScaleBlock == <<I1, I2, I4, I5, I3, I13, I11>>
